@@ -187,6 +187,29 @@ def run_case(case, seed):
                     c = tdt.function_major(x, phi, add_one=a1, single_core=i)
                     r.true('function_major:single_core', isinstance(c, np.ndarray) and c.shape == T.cores[i].shape and np.array_equal(c, T.cores[i]), 'core %d' % i)
         r.true('cmfm:data-unchanged', np.array_equal(x, x0))
+        # user functions whose RETURN TYPE depends on the argument (a hinge written as max(t, 0) returns the integer 0 for negative
+        # arguments, floats otherwise), with a negative first entry of the data matrix
+        if d * m >= 2:
+            xh = x.copy(); xh[0, 0] = -abs(xh[0, 0]) - 0.1
+            if d * m > 1:
+                xh.flat[1] = abs(xh.flat[1]) + 0.37
+            phi_h = [lambda t: max(t, 0), lambda t: t * t + 0.5]
+            want_h = np.zeros([2] * d + [m])
+            for j in range(m):
+                for idx in itertools.product(range(2), repeat=d):
+                    want_h[idx + (j,)] = np.prod([float(phi_h[idx[c]](xh[c, j])) for c in range(d)])
+            with r.op('coordinate_major:type-dependent-function:call'):
+                Th = tdt.coordinate_major(xh, phi_h)
+                if check_tt(r, 'coordinate_major:type-dependent-function', Th, want_h):
+                    c0_ = tdt.coordinate_major(xh, phi_h, single_core=0)
+                    r.true('coordinate_major:type-dependent-function:single_core', isinstance(c0_, np.ndarray) and np.array_equal(c0_, Th.cores[0]))
+            with r.op('function_major:type-dependent-function:call'):
+                want_f = np.zeros([d] * 2 + [m])
+                for j in range(m):
+                    g_ = [[float(phi_h[kk](xh[c, j])) for c in range(d)] for kk in range(2)]
+                    for idx in itertools.product(range(d), repeat=2):
+                        want_f[idx + (j,)] = g_[0][idx[0]] * g_[1][idx[1]]
+                check_tt(r, 'function_major:type-dependent-function', tdt.function_major(xh, phi_h, add_one=False), want_f)
     elif k == 'gram':
         d = case['d']
         x1 = data(rng, d, case['m1'], 'gauss'); x2 = data(rng, d, case['m2'], 'gauss')
